@@ -195,7 +195,7 @@ def check_C14(o, tier):
     http_check(o, tier, "C14", ["mix", "upload"], make_view(fields=("code",)), RULE % "rofs, switches, mix, upload", monitors_prefix="C14.",
                n_quick=150, n_thorough=4000, stores=("memdir",))
     http_check(o, tier, "C14", ["switches"], make_view(fields=("code", "dcd", "body")), RULE % "rofs, switches", monitors_prefix="C14.",
-               n_quick=250, n_thorough=8000)
+               n_quick=250, n_thorough=8000, extra_monitors=("C04.refused-changed",))
     # legacy layouts (fallback tags that the store converts when it loads the index) opened read-only
     from . import p_ingest
     p_ingest.extra_C14(o, tier)
